@@ -244,10 +244,9 @@ func (c *Cond) Wait() {
 	// window unnoticed.
 	simrt.Yield(simrt.Site(1))
 	w := &condWaiter{}
-	c.waiters = append(c.waiters, w)
+	c.waiters = simrt.Push(c.waiters, w)
 	c.L.Unlock()
 	simrt.Block("cond.Wait", func() bool { return w.signalled })
-	simrt.RaceAcquire(c)
 	c.L.Lock()
 }
 
@@ -257,7 +256,6 @@ func (c *Cond) Signal() {
 		return
 	}
 	simrt.Yield(simrt.Site(1))
-	simrt.RaceRelease(c)
 	if len(c.waiters) > 0 {
 		c.waiters[0].signalled = true
 		c.waiters = c.waiters[1:]
@@ -270,7 +268,6 @@ func (c *Cond) Broadcast() {
 		return
 	}
 	simrt.Yield(simrt.Site(1))
-	simrt.RaceRelease(c)
 	for _, w := range c.waiters {
 		w.signalled = true
 	}
